@@ -128,9 +128,18 @@ def firstName (r : IndexRow) : Except Err Str :=
 
 def str (s : String) : Str := s.toList
 
+/-- the row types `_process_content_index_table` dispatches on, in source order (T1) -/
+def rowTypeNames : List Str :=
+  [str "content_index", str "data_sheet", str "template_definition", str "create_flow",
+   str "create_campaign", str "create_triggers", str "ignore_row"]
+/-- `row.status == "draft"` (T1) -/
+def draftWord : Str := str "draft"
+/-- the sheet every workbook is searched for (T1) -/
+def indexSheetName : Str := str "content_index"
+
 /-- `row.status == "draft"` or the tags fail the filter: the row has no effect -/
 def inert (pats : Dict Int (List Str)) (r : IndexRow) : Bool :=
-  r.status == str "draft" || !tagMatches pats r.tags
+  r.status == draftWord || !tagMatches pats r.tags
 
 /-- `row.new_name or row.sheet_name[0]` of a stored flow row -/
 def flowKey (r : IndexRow) : Except Err Str :=
@@ -144,47 +153,70 @@ def addTemplate (res : Resolve) (st : St) (r : IndexRow) (updateDuplicates : Boo
     let sh ← resolveOrDie res n
     pure { st with templates := st.templates.set n { prov := sh.prov, args := r.tplArgs } }
 
+/-- the list comprehension of `_process_ignore_row`, left to right -/
+def dropFlowRows (n : Str) : List IndexRow → Except Err (List IndexRow)
+  | [] => pure []
+  | r :: rs => do
+    let k ← flowKey r
+    let rest ← dropFlowRows n rs
+    pure (if k ≠ n then r :: rest else rest)
+
 /-- `_process_ignore_row` -/
 def ignoreRow (st : St) (n : Str) : Except Err St := do
-  let keep ← st.flowRows.filterM (fun r => do
-    let k ← flowKey r
-    pure (decide (k ≠ n)))
+  let keep ← dropFlowRows n st.flowRows
   pure { st with flowRows := keep, campaigns := st.campaigns.pop n, triggers := st.triggers.pop n }
 
 def dataEnv (res : Resolve) : DataOps.Env := fun n => (res n).map (·.dataRows)
 
+/-- which branch of the `if row.type == … elif …` chain a row takes -/
+inductive Kind
+  | contentIndex | dataSheet | templateDefinition | createFlow | createCampaign | createTriggers
+  | ignoreRow | invalid
+deriving DecidableEq, Repr
+
+def kindOf (ty : Str) : Kind :=
+  if ty = str "content_index" then .contentIndex
+  else if ty = str "data_sheet" then .dataSheet
+  else if ty = str "template_definition" then .templateDefinition
+  else if ty = str "create_flow" then .createFlow
+  else if ty = str "create_campaign" then .createCampaign
+  else if ty = str "create_triggers" then .createTriggers
+  else if ty = str "ignore_row" then .ignoreRow
+  else .invalid
+
 /-- the body of the loop of `_process_content_index_table` for an active row that is not a
 `content_index` row -/
-def step (res : Resolve) (st : St) (r : IndexRow) : Except Err St := do
-  let st := if r.sheetNames.length ≠ 1 ∧ r.ty ≠ str "data_sheet"
-            then { st with errors := st.errors + 1 } else st
-  if r.ty = str "data_sheet" then do
+def step (res : Resolve) (st : St) (r : IndexRow) : Except Err St :=
+  let st := { st with errors := if r.sheetNames.length ≠ 1 ∧ kindOf r.ty ≠ .dataSheet
+                                  then st.errors + 1 else st.errors }
+  match kindOf r.ty with
+  | .dataSheet =>
     match DataOps.processDataSheet (dataEnv res) st.data
         { sources := r.sheetNames, newName := r.newName, kind := .none } with
     | .ok d => pure { st with data := d }
     | .error e => throw (.data e)
-  else if r.ty = str "template_definition" then addTemplate res st r true
-  else if r.ty = str "create_flow" then pure { st with flowRows := st.flowRows ++ [r] }
-  else if r.ty = str "create_campaign" then do
+  | .templateDefinition => addTemplate res st r true
+  | .createFlow => pure { st with flowRows := st.flowRows ++ [r] }
+  | .createCampaign => do
     let n ← firstName r
     let sh ← resolveOrDie res n
     let name := if r.newName ≠ [] then r.newName else n
     pure { st with campaigns := st.campaigns.set name { group := r.group, prov := sh.prov } }
-  else if r.ty = str "create_triggers" then do
+  | .createTriggers => do
     let n ← firstName r
     let sh ← resolveOrDie res n
     pure { st with triggers := st.triggers.set n sh.prov }
-  else if r.ty = str "ignore_row" then do
+  | .ignoreRow => do
     let n ← firstName r
     ignoreRow st n
-  else pure { st with errors := st.errors + 1 }
+  | _ => pure { st with errors := st.errors + 1 }    -- LOGGER.error("invalid type")
 
 /-- one row of `_process_content_index_table`; `recur` processes a nested index sheet -/
 def rowStep (res : Resolve) (pats : Dict Int (List Str))
     (recur : St → List IndexRow → Except Err St) (st : St) (r : IndexRow) : Except Err St :=
   if inert pats r then pure st
-  else if r.ty = str "content_index" then do
-    let st := if r.sheetNames.length ≠ 1 then { st with errors := st.errors + 1 } else st
+  else if kindOf r.ty = .contentIndex then do
+    let st := { st with errors := if r.sheetNames.length ≠ 1 then st.errors + 1 else st.errors }
     let n ← firstName r
     let sh ← resolveOrDie res n
     recur st sh.rows
@@ -203,7 +235,7 @@ def populateMissing (res : Resolve) (st : St) : Except Err St :=
 /-- `ContentIndexParser.__init__`: every workbook's `content_index`, in workbook order -/
 def processAll (rd : List Workbook) (pats : Dict Int (List Str)) (fuel : Nat) : Except Err St := do
   let res : Resolve := getSheetOrDie rd
-  let indices := getSheetsByName rd (str "content_index")
+  let indices := getSheetsByName rd indexSheetName
   let st0 : St := if indices = [] then { errors := 1 } else {}
   let st ← indices.foldlM (fun st sh => processTable res pats fuel st sh.rows) st0
   populateMissing res st
